@@ -1,7 +1,7 @@
 (* TableCheck.v — the DEFINITIONS of the default gates regenerated from the Python source equal the hand-written
    table all theorems are proved about; with SigCheck and ConstCheck, everything the property files need. *)
 From Coq Require Import ZArith List String.
-From OSQ Require Import Num IR Construct DefaultTable DefaultGates Constants SigCheck ConstCheck.
+From OSQ Require Import Num IR Construct DefaultTable DefaultGates Constants SigCheck NormalizeCheck.
 
 Lemma table_ok : gen_table = hand_table. Proof. reflexivity. Qed.
 
